@@ -2056,7 +2056,13 @@ func (ctx Ctx) funcDecl(d *ast.FuncDecl) coq.FuncDecl {
 		if !ok {
 			ctx.unsupported(rcvr, "unexpected function receiver type: %s", ctx.printGo(rcvrTy))
 		}
-		fd.Name = coq.MethodName(ident.Name, d.Name.Name)
+		rcvrName := ident.Name
+		if named, ok := types.Unalias(ctx.typeOf(rcvrTy)).(*types.Named); ok {
+			// calls name the method after the receiver's type, not after an
+			// alias the declaration happens to spell
+			rcvrName = named.Obj().Name()
+		}
+		fd.Name = coq.MethodName(rcvrName, d.Name.Name)
 		fd.Args = append(fd.Args, ctx.field(rcvr))
 	}
 
